@@ -99,6 +99,15 @@ class Contract:
                 vals[p.arg] = d.value
         return vals
 
+    ctor_params = ()
+
+    def bind_ctor(self, args, kwargs):
+        vals = dict(getattr(self, "ctor_defaults", {}))
+        for n, v in zip(self.ctor_params, args):
+            vals[n] = v
+        vals.update(kwargs)
+        return vals
+
     def apply(self, ip: Interp, st: State, f: FnVal, args, kwargs, site=None):
         vals = self.bind(f, args, kwargs)
         self_obj = None
@@ -279,6 +288,30 @@ class VerifyTask:
         if p is None or not hasattr(p, "hasattr"):
             raise Unsupported(f"hasattr of opaque {obj.kind}")
         return p.hasattr(ip, st, obj, name)
+
+    def construct(self, ip, st, cls, args, kwargs, site):
+        """Constructor call of a repository class that has an `__init__` contract with `constructs`."""
+        m = SRC.module_of_real(getattr(cls, "__module__", "") or "")
+        if m is None:
+            return NotImplemented
+        key = f"{m.relpath}:{cls.__qualname__}.__init__"
+        c = REGISTRY.get(key)
+        if c is None or getattr(c, "constructs", None) is None:
+            return NotImplemented
+        obj = c.constructs.fresh(st, cls.__name__.lower())
+        obj.cls = cls
+        a = View(c.bind_ctor(args, kwargs))
+        pre = c.requires(a)
+        st.oblige(f"{self.name}/call-pre@{cls.__name__}():{(site or '').split(':')[-1]}", pre if isinstance(pre, (SBool, bool)) else mk_bool(V._zb(pre)), "call-pre")
+        excs = list(c.raises)
+        if excs:
+            k = st.fork(len(excs) + 1)
+            if k > 0:
+                raise PyRaise(SExc(excs[k - 1], ("<from constructor contract>",), site=f"callee {cls.__name__}"))
+        for _l, fml in c._gen(c.ensures(None, obj, a, None)):
+            st.assume(fml if isinstance(fml, (SBool, bool)) else mk_bool(V._zb(fml)))
+        self.used_contracts.add(key)
+        return obj
 
     def missing_field(self, ip, st, obj, name):
         h = getattr(self.c, "missing_field", None)
